@@ -52,7 +52,7 @@ def unsignedBits : String → Option Nat
   | "uint8" => some 8 | "uint16" => some 16 | "uint32" => some 32 | "uint64" => some 64 | "uint" => some 64
   | _ => none
 
-def handleRd (o : Op) : String :=
+def handleRd0 (o : Op) : String :=
   match o.get? "f", input o with
   | some f, some s =>
     let tag := tagOf o
@@ -107,6 +107,11 @@ def handleRd (o : Op) : String :=
       | _, _ => "bad-op"
   | _, _ => "bad-op"
 
+/-- readers never write to their input: `mutated=0` -/
+def handleRd (o : Op) : String :=
+  let r := handleRd0 o
+  if r == "bad-op" then r else r ++ " mutated=0"
+
 def intList (s : String) : Option (List Int) :=
   if s == "-" then some [] else (s.splitOn ".").mapM String.toInt?
 
@@ -114,7 +119,7 @@ def intList (s : String) : Option (List Int) :=
 def finAdd (r : Option Bytes) (rt : Bytes → Bool) (asn1eq : Bool) : String :=
   match r with
   | none => "err"
-  | some bs => s!"ok {showB bs} rt={b01 (rt bs)} asn1eq={if asn1eq then "1" else "na"}"
+  | some bs => s!"ok {showB bs} rt={b01 (rt bs)} asn1eq={if asn1eq then "1" else "na"} mutated=0"
 
 def inI64 (v : Int) : Bool := -(2 : Int) ^ 63 ≤ v && v < (2 : Int) ^ 63
 
@@ -167,7 +172,7 @@ def handleAdd (o : Op) : String :=
       | none => "err"
       | some bs =>
         let rt := if small then b01 (readOID bs == some (arcs.map Int.toNat, [])) else "na"
-        s!"ok {showB bs} rt={rt} asn1eq={if small then "1" else "na"}"
+        s!"ok {showB bs} rt={rt} asn1eq={if small then "1" else "na"} mutated=0"
     | none => "bad-op"
   | some "asn1" =>
     match tagOf o, input o with
